@@ -374,6 +374,13 @@ def run_C16(ctx):
     r2 = ctx.tlc("MC_C16", cfg="MC_C16_graph.cfg", timeout=600, label="MC_C16(state graph)")
     res2 = ctx.vh("serial-replay", r2.out, "corpus:%s:%d" % (REPO, 6 if ctx.quick else 1), timeout=3000)
     ctx.absorb(res2, "G:serial-replay(corpus)")
+    # the mechanism-state graph on the documents of other generators: type graphs at every use site, one macro body at several sites
+    rt = ctx.tlc("MC_C01types", cfg="MC_C01types_quick.cfg", timeout=1800)
+    res3 = ctx.vh("serial-replay", r2.out, "types:" + rt.out, timeout=3000)
+    ctx.absorb(res3, "G:serial-replay(type graphs)")
+    rs = ctx.tlc("MC_C10sites", cfg="MC_C10sites.cfg", timeout=900)
+    res4 = ctx.vh("serial-replay", r2.out, "toks:" + rs.out, timeout=3000)
+    ctx.absorb(res4, "G:serial-replay(paste sites)")
     ctx.cov["exhaustive"] = True
     st = ctx.vh("serial-replay", r2.out, "docs", "selftest")
     ctx.selftest(st["n_mismatch"] >= 0.4 * st["cases"], "C16 G: altered reference bytes are noticed")
@@ -390,6 +397,17 @@ def _sweep(ctx, checks, nmut):
     return a, b, c
 
 
+def _sweep_more(ctx, checks, label):
+    """the documents of the other generators as further sources of the same oracle: one macro body at several paste sites
+    (MC_C10sites) and the type graphs at every use site (MC_C01types) -- accepted or not is decided by the real build"""
+    r1 = ctx.tlc("MC_C10sites", cfg="MC_C10sites.cfg", timeout=900)
+    x1 = ctx.vh("sweep", checks, "toks:" + r1.out, timeout=1800)
+    ctx.absorb(dict(x1, nontrivial=x1.get("extra", {}).get("accepted", 0)), "G:sweep-%s(paste sites)" % label)
+    r2 = ctx.tlc("MC_C01types", cfg="MC_C01types_quick.cfg", timeout=1800)
+    x2 = ctx.vh("sweep", checks, "types:" + r2.out, timeout=1800)
+    ctx.absorb(dict(x2, nontrivial=x2.get("extra", {}).get("accepted", 0)), "G:sweep-%s(type graphs)" % label)
+
+
 def run_C04(ctx):
     ctx.cov["rule"] = ("M+G: the matrix of 15 schema-carrying positions x 12 defect classes (129 applicable cells): when the real build accepts a cell, ToJson and ToJsonIndent must succeed, be valid UTF-8 JSON, "
                        "agree up to whitespace and have the JDoc Exchange 2.0.0 shape (top-level keys, required fields of every entity, object/array nodes carry children, scalar nodes carry scalarValue). "
@@ -402,6 +420,7 @@ def run_C04(ctx):
     ctx.selftest(st["n_mismatch"] == st["nontrivial"] and st["nontrivial"] > 10, "C04 G: accepted cells are examined")
     for x, name in zip(_sweep(ctx, "c04", 3 if ctx.quick else 12), ("model", "corpus+mutations", "docs")):
         ctx.absorb(x, "G:sweep-c04(%s)" % name)
+    _sweep_more(ctx, "c04", "c04")
 
 
 def run_C17(ctx):
@@ -421,6 +440,7 @@ def run_C17(ctx):
     ctx.selftest(stm["n_mismatch"] == stm["nontrivial"], "C17 G: accepted cells are examined")
     for x, name in zip(_sweep(ctx, "c17", 3 if ctx.quick else 12), ("model", "corpus+mutations", "docs")):
         ctx.absorb(x, "G:sweep-c17(%s)" % name)
+    _sweep_more(ctx, "c17", "c17")
     # M+G: OpenAPI.tla -- the export as a function of the catalog value; Sound(C) is C17 on the model; the real document is
     # projected onto OAS(C).  What C17 states is a verdict, the rest of the skeleton is SPEC-DRIFT.
     ro = ctx.tlc("MC_C17docs", cfg="MC_C17docs_quick.cfg" if ctx.quick else "MC_C17docs_thorough.cfg", timeout=3300)
@@ -440,6 +460,7 @@ def run_C06(ctx):
     for x, name in zip(_sweep(ctx, "c06", 3 if ctx.quick else 12), ("model", "corpus+mutations", "docs")):
         x = dict(x, nontrivial=x.get("cases", 0))
         ctx.absorb(x, "G:sweep-c06(%s)" % name)
+    _sweep_more(ctx, "c06", "c06")
     # macro graphs: several offending macros -> the reported site must be stable
     r2 = ctx.tlc("MC_C10cyc", timeout=900)
     res2 = ctx.vh("c06-docs", r2.out, timeout=900)
